@@ -135,8 +135,8 @@ def chain_cases(draw):
 
 
 CHECKS = [
-    hc.Check("py_digest", run_digest, digest_cases(), quick_cases=2000, thorough_cases=20000, enumerate=enum_digest),
-    hc.Check("py_chain", run_chain, chain_cases(), quick_cases=1500, thorough_cases=10000, enumerate=enum_chain),
+    hc.Check("py_digest", run_digest, digest_cases(), quick_cases=4000, thorough_cases=20000, enumerate=enum_digest),
+    hc.Check("py_chain", run_chain, chain_cases(), quick_cases=3000, thorough_cases=10000, enumerate=enum_chain),
 ]
 
 if __name__ == "__main__":
